@@ -150,7 +150,7 @@ package session
 //@   requires wf: s.data == nil || wfSession(s)
 //@   requires stored-only-issued: s.data == nil || storedIssued(stOf(s))
 //@   lock s.mu protects lockToken
-//@   modifies s.idleTimeout, stHas, stVal, bufStr, gobOut, rqHdrHas, rqHdrVal, outHdr, outHdrSet, jarHas, jarVal, jarAttr, ckKey, ckVal, ckAttr, jcPath, jcExp, jcPooled, lockToken
+//@   modifies s.idleTimeout, stHas, stVal, bufStr, gobOut, rqHdrHas, rqHdrVal, rhLine, rhUA, outHdr, outHdrSet, jarHas, jarVal, jarAttr, ckKey, ckVal, ckAttr, jcPath, jcExp, jcPooled, lockToken
 //@   atcall @fiber.Storage.Set: under-own-id-with-idle-ttl: key == s.id && exp == s.idleTimeout && exp > 0
 // the store may keep the slice it is given (internal/storage/memory does): it must not be the pooled buffer's storage
 //@   atcall @fiber.Storage.Set: bytes-not-shared-with-the-pooled-buffer: arr(val) == 0 || !old(allocated(arr(val)))
@@ -167,7 +167,7 @@ package session
 //@   requires unlocked: !held(s.mu)
 //@   requires wf: s.data == nil || wfSession(s)
 //@   requires stored-only-issued: s.data == nil || storedIssued(stOf(s))
-//@   modifies s.idleTimeout, stHas, stVal, bufStr, gobOut, rqHdrHas, rqHdrVal, outHdr, outHdrSet, jarHas, jarVal, jarAttr, ckKey, ckVal, ckAttr, jcPath, jcExp, jcPooled, lockToken
+//@   modifies s.idleTimeout, stHas, stVal, bufStr, gobOut, rqHdrHas, rqHdrVal, rhLine, rhUA, outHdr, outHdrSet, jarHas, jarVal, jarAttr, ckKey, ckVal, ckAttr, jcPath, jcExp, jcPooled, lockToken
 //@   ensures contextless-persists: s.ctx == nil && result == nil && s.data != nil ==> stHas[stOf(s)][s.id] && dataIs(s, stVal[stOf(s)][s.id])
 //@   ensures persisted-or-untouched: result == nil && s.data != nil ==> (stHas[stOf(s)][s.id] && dataIs(s, stVal[stOf(s)][s.id])) || (stHas == old(stHas) && stVal == old(stVal))
 //@   ensures failed-keeps-store: result != nil ==> stHas == old(stHas) && stVal == old(stVal)
@@ -187,7 +187,7 @@ package session
 //@   requires unlocked: !held(s.mu)
 //@   requires wf: s.data == nil || wfSession(s)
 //@   lock s.mu protects lockToken
-//@   modifies s.data.Data, Middleware.destroyed, stHas, rqHdrHas, hdrCnt, rhLine, jarHas, jarVal, jarAttr, ckKey, ckVal, ckAttr, jcPath, jcExp, jcPooled, lockToken
+//@   modifies s.data.Data, Middleware.destroyed, stHas, rqHdrHas, hdrCnt, hdrVal, rhLine, rhUA, jarHas, jarVal, jarAttr, ckKey, ckVal, ckAttr, jcPath, jcExp, jcPooled, lockToken
 //@   ensures id-gone: result == nil && s.data != nil ==> !stHas[stOf(s)][s.id]
 //@   ensures data-cleared: s.data != nil ==> dataEmpty(s)
 //@   ensures others-untouched: othersKept(stOf(s), s.id)
@@ -216,7 +216,7 @@ package session
 //@ func (*Session).Reset
 //@   requires wf: wfSession(s)
 //@   lock s.mu protects lockToken
-//@   modifies s.data.Data, heap(MD_any_any), heap(MV_any_any), s.id, s.fresh, s.idleTimeout, stHas, issued, rqHdrHas, hdrCnt, rhLine, jarHas, jarVal, jarAttr, ckKey, ckVal, ckAttr, jcPath, jcExp, jcPooled, lockToken
+//@   modifies s.data.Data, heap(MD_any_any), heap(MV_any_any), s.id, s.fresh, s.idleTimeout, stHas, issued, rqHdrHas, hdrCnt, hdrVal, rhLine, rhUA, jarHas, jarVal, jarAttr, ckKey, ckVal, ckAttr, jcPath, jcExp, jcPooled, lockToken
 //@   ensures old-id-gone: result == nil ==> !stHas[stOf(s)][old(s.id)]
 //@   ensures new-id-issued: result == nil ==> s.id != old(s.id) && !old(issued)[s.id] && s.fresh
 //@   ensures data-cleared: forallI(k, k != absKey() ==> !indom(s.data.Data, k))
@@ -394,7 +394,7 @@ package session
 //@   requires store-wf: wfStore(s)
 //@   requires stored-only-issued: storedIssued(s.Storage)
 //@   lock sess.mu protects lockToken
-//@   modifies Session.ctx, Session.config, Session.id, Session.fresh, Session.idleTimeout, Session.data, data.Data, heap(MD_any_any), heap(MV_any_any), stHas, locHas, locVal, bufStr, gobIn, issued, rqHdrHas, hdrCnt, rhLine, jarHas, jarVal, jarAttr, ckKey, ckVal, ckAttr, jcPath, jcExp, jcPooled, lockToken, pooledObj
+//@   modifies Session.ctx, Session.config, Session.id, Session.fresh, Session.idleTimeout, Session.data, data.Data, heap(MD_any_any), heap(MV_any_any), stHas, locHas, locVal, bufStr, gobIn, issued, rqHdrHas, hdrCnt, rhLine, jarHas, jarVal, jarAttr, ckKey, ckVal, ckAttr, jcPath, jcExp, jcPooled, lockToken, pooledObj, hdrVal, rhUA
 //@   ensures never-adopts-unissued-id: result1 == nil ==> result0 != nil && result0.id != "" && issued[result0.id]
 //@   ensures existing-id-only-if-stored: result1 == nil && old(issued)[result0.id] ==> old(stHas)[s.Storage][result0.id]
 //@   ensures existing-id-sees-stored-data: result1 == nil && old(issued)[result0.id] ==> seesStored(result0, old(stVal)[s.Storage][result0.id])
@@ -450,7 +450,7 @@ package session
 //@   requires store-wf: wfStore(s)
 //@   requires package-errors-initialised: errorsSet()
 //@   requires stored-only-issued: storedIssued(s.Storage)
-//@   modifies Session.ctx, Session.config, Session.id, Session.fresh, Session.idleTimeout, Session.data, data.Data, heap(MD_any_any), heap(MV_any_any), stHas, locHas, locVal, bufStr, gobIn, issued, rqHdrHas, hdrCnt, rhLine, jarHas, jarVal, jarAttr, ckKey, ckVal, ckAttr, jcPath, jcExp, jcPooled, lockToken, pooledObj
+//@   modifies Session.ctx, Session.config, Session.id, Session.fresh, Session.idleTimeout, Session.data, data.Data, heap(MD_any_any), heap(MV_any_any), stHas, locHas, locVal, bufStr, gobIn, issued, rqHdrHas, hdrCnt, rhLine, jarHas, jarVal, jarAttr, ckKey, ckVal, ckAttr, jcPath, jcExp, jcPooled, lockToken, pooledObj, hdrVal, rhUA
 //@   ensures never-adopts-unissued-id: result1 == nil ==> result0 != nil && result0.id != "" && issued[result0.id]
 //@   ensures existing-id-only-if-stored: result1 == nil && old(issued)[result0.id] ==> old(stHas)[s.Storage][result0.id]
 //@   ensures existing-id-sees-stored-data: result1 == nil && old(issued)[result0.id] ==> seesStored(result0, old(stVal)[s.Storage][result0.id])
@@ -485,7 +485,7 @@ package session
 //@   requires package-errors-initialised: errorsSet()
 //@   requires stored-only-issued: storedIssued(s.Storage)
 //@   lock sess.mu protects lockToken
-//@   modifies Middleware.destroyed, Session.ctx, Session.config, Session.id, Session.fresh, Session.idleTimeout, Session.data, data.Data, heap(MD_any_any), heap(MV_any_any), stHas, bufStr, gobIn, rqHdrHas, hdrCnt, rhLine, jarHas, jarVal, jarAttr, ckKey, ckVal, ckAttr, jcPath, jcExp, jcPooled, lockToken, pooledObj
+//@   modifies Middleware.destroyed, Session.ctx, Session.config, Session.id, Session.fresh, Session.idleTimeout, Session.data, data.Data, heap(MD_any_any), heap(MV_any_any), stHas, bufStr, gobIn, rqHdrHas, hdrCnt, rhLine, jarHas, jarVal, jarAttr, ckKey, ckVal, ckAttr, jcPath, jcExp, jcPooled, lockToken, pooledObj, hdrVal, rhUA
 //@   ensures only-stored-id: result1 == nil ==> result0 != nil && id != "" && result0.id == id && old(stHas)[s.Storage][id] && !result0.fresh
 //@   ensures sees-stored-data: result1 == nil ==> seesStored(result0, old(stVal)[s.Storage][id])
 //@   ensures keeps-its-deadline: result1 == nil ==> deadlineAsStored(result0, old(stVal)[s.Storage][id])
@@ -565,7 +565,7 @@ package session
 //@   requires unlocked: !held(m.mu)
 //@   requires store-wf: cfg.Store != nil && wfStore(cfg.Store) && storedIssued(cfg.Store.Storage)
 //@   requires caller-holds-the-middleware-object: !pooledObj[m]
-//@   modifies heap, stHas, locHas, locVal, bufStr, gobIn, issued, rqHdrHas, hdrCnt, rhLine, jarHas, jarVal, jarAttr, ckKey, ckVal, ckAttr, jcPath, jcExp, jcPooled, lockToken, pooledObj
+//@   modifies heap, stHas, locHas, locVal, bufStr, gobIn, issued, rqHdrHas, hdrCnt, rhLine, jarHas, jarVal, jarAttr, ckKey, ckVal, ckAttr, jcPath, jcExp, jcPooled, lockToken, pooledObj, hdrVal, rhUA
 //@   ensures session-object-is-nobody-elses: old(pooledObj)[m.Session] && forallI(x, x != m.Session ==> pooledObj[x] == old(pooledObj[x]))
 //@   ensures owns-session: mwInv(m) && m.ctx == c && m.Session.ctx == c && m.Session.config == cfg.Store && !held(m.mu)
 //@   ensures never-adopts-unissued-id: issued[m.Session.id]
@@ -584,7 +584,7 @@ package session
 //@ macro savedAs(m, st, id) = stHas[st][id] && forallI(k, old(indom(m.Session.data.Data, k)) <==> decHas(stVal[st][id], k)) && forallI(k, decHas(stVal[st][id], k) ==> old(m.Session.data.Data[k]) == decVal(stVal[st][id], k))
 //@ func (*Middleware).saveSession
 //@   requires owns-session: mwInv(m) && !held(m.mu)
-//@   modifies Session.idleTimeout, Session.id, Session.ctx, Session.config, data.Data, stHas, stVal, bufStr, gobOut, rqHdrHas, rqHdrVal, outHdr, outHdrSet, jarHas, jarVal, jarAttr, ckKey, ckVal, ckAttr, jcPath, jcExp, jcPooled, sentStatus, lockToken, pooledObj
+//@   modifies Session.idleTimeout, Session.id, Session.ctx, Session.config, data.Data, stHas, stVal, bufStr, gobOut, rqHdrHas, rqHdrVal, outHdr, outHdrSet, jarHas, jarVal, jarAttr, ckKey, ckVal, ckAttr, jcPath, jcExp, jcPooled, sentStatus, lockToken, pooledObj, rhLine, rhUA
 //@   atcall releaseSession: releases-own-session: s == m.Session
 //@   ensures session-released-once: pooledObj == old(pooledObj)[m.Session := true]
 //@   ensures persisted-or-failed: savedAs(m, old(stOf(m.Session)), old(m.Session.id)) || (stHas == old(stHas) && stVal == old(stVal))
@@ -633,7 +633,7 @@ package session
 //@ func (*Middleware).Destroy
 //@   requires unlocked: !held(m.mu)
 //@   lock m.mu protects H_session_Middleware_destroyed inv mw-owns-session: mwInv(m)
-//@   modifies Middleware.destroyed, data.Data, stHas, rqHdrHas, hdrCnt, rhLine, jarHas, jarVal, jarAttr, ckKey, ckVal, ckAttr, jcPath, jcExp, jcPooled, lockToken
+//@   modifies Middleware.destroyed, data.Data, stHas, rqHdrHas, hdrCnt, hdrVal, rhLine, rhUA, jarHas, jarVal, jarAttr, ckKey, ckVal, ckAttr, jcPath, jcExp, jcPooled, lockToken
 //@   ensures marked-destroyed: m.destroyed
 //@   ensures id-gone: result == nil ==> !stHas[stOf(m.Session)][m.Session.id]
 //@   ensures data-cleared: dataEmpty(m.Session)
@@ -644,7 +644,7 @@ package session
 //@ func (*Middleware).Reset
 //@   requires unlocked: !held(m.mu)
 //@   lock m.mu protects lockToken inv mw-owns-session: mwInv(m)
-//@   modifies lockToken, data.Data, heap(MD_any_any), heap(MV_any_any), Session.id, Session.fresh, Session.idleTimeout, stHas, issued, rqHdrHas, hdrCnt, rhLine, jarHas, jarVal, jarAttr, ckKey, ckVal, ckAttr, jcPath, jcExp, jcPooled
+//@   modifies lockToken, data.Data, heap(MD_any_any), heap(MV_any_any), Session.id, Session.fresh, Session.idleTimeout, stHas, issued, rqHdrHas, hdrCnt, hdrVal, rhLine, rhUA, jarHas, jarVal, jarAttr, ckKey, ckVal, ckAttr, jcPath, jcExp, jcPooled
 //@   ensures old-id-gone: result == nil ==> !stHas[stOf(m.Session)][old(m.Session.id)]
 //@   ensures new-id-issued: result == nil ==> issued[m.Session.id] && !old(issued)[m.Session.id] && m.Session.fresh
 //@   ensures data-cleared: forallI(k, k != absKey() ==> !indom(m.Session.data.Data, k))
